@@ -185,8 +185,16 @@ def r3_guard(ck, F, d):
         s = alt.x.get("site")
         ok_dom = s is not None and b.dominates(t_t, s.bb) and not b.dominates(f_t, s.bb)
         # the returned pair is the transmuted (key, val) of the same entry
-        tr = [e for e in x.walk() if e.k == "call" and e.x["path"].endswith(A("transmute_entry"))]
-        same = bool(tr) and all(tuple_part(t_.a[0]) == {0} and tuple_part(t_.a[1]) == {1} and cursor_sources(t_.a[0]) == tested and cursor_sources(t_.a[1]) == tested for t_ in tr)
+        tup = x.a[0]
+        tr = []
+        if tup.k == "agg" and len(tup.a) == 2:
+            # the lifetime-extending call(s) the two yielded components are taken from (outermost only:
+            # an entry may already have been through one inside a positioning helper)
+            for comp in tup.a:
+                y = comp.strip()
+                if y.k == "field" and y.a[0].strip().k == "call" and y.a[0].strip().x["path"].endswith(A("transmute_entry")):
+                    tr.append(y.a[0].strip())
+        same = len(tr) == 2 and tr[0].ident() == tr[1].ident() and all(tuple_part(t_.a[0]) == {0} and tuple_part(t_.a[1]) == {1} and cursor_sources(t_.a[0]) == tested and cursor_sources(t_.a[1]) == tested for t_ in tr)
         ck.ob(R, f"yield-guarded/{d}", ok_dom, "the Ok(Some(entry)) exit is reached only through the `contains` == true edge", b, s)
         ck.ob(R, f"yield-is-tested-entry/{d}", same, "the yielded entry is the one whose key was tested", b, s)
     # not-first branch: exactly one step
